@@ -263,8 +263,12 @@ pub fn gen_modular_case(src: &mut Src, o: &ModGenOpts) -> ModularCase {
             }
             _ => unreachable!(),
         }
-    } else if o.narrow || src.chance(200) {
+    } else if (o.narrow && bits > 12) || src.chance(200) {
         (0, (1i64 << bits) - 1)
+    } else if o.narrow {
+        // out-of-range samples that still fit the 16-bit buffers (the stage checks of narrow mode apply as usual)
+        let half = 1i64 << bits;
+        ((-half / 2).max(-8192), (half + half / 2 - 1).min(8191))
     } else {
         // modular samples may lie outside the nominal range
         let half = 1i64 << bits.min(30);
